@@ -4,6 +4,7 @@ ALL_KINDS = ['rr', 'rr', 'stream', 'stream', 'channel', 'channel', 'fnf', 'push'
 
 FAMILIES = {
     'C01': [
+        {'family': 'tlc', 'knobs': {}, 'quick': 320, 'thorough': 3200, 'first': 500000},
         {'family': 'core', 'knobs': {}, 'quick': 350, 'thorough': 5000},
         {'family': 'core', 'knobs': {'frag': 64, 'max_inter': 4, 'min_inter': 2, 'p_cancel': 0.0, 'p_error': 0.02}, 'quick': 150,
          'thorough': 3000, 'first': 100000},
@@ -19,6 +20,7 @@ FAMILIES = {
                                      'p_error': 0.0}, 'quick': 400, 'thorough': 6000},
     ],
     'C07': [
+        {'family': 'tlc', 'knobs': {}, 'quick': 320, 'thorough': 3200, 'first': 500000},
         {'family': 'core', 'knobs': {'p_cancel': 0.15, 'p_error': 0.15}, 'quick': 400, 'thorough': 6000},
         {'family': 'cut', 'knobs': {}, 'quick': 300, 'thorough': 5000, 'first': 100000},
     ],
@@ -27,10 +29,12 @@ FAMILIES = {
         {'family': 'hostile', 'knobs': {'classes': ['duplicate_request'], 'p_raise': 0.0}, 'quick': 120, 'thorough': 1500, 'first': 100000},
     ],
     'C08': [
+        {'family': 'tlc', 'knobs': {}, 'quick': 320, 'thorough': 3200, 'first': 500000},
         {'family': 'core', 'knobs': {}, 'quick': 300, 'thorough': 5000},
         {'family': 'core', 'knobs': {'late_actions': True, 'p_cancel': 0.2}, 'quick': 150, 'thorough': 2500, 'first': 100000},
     ],
     'C09': [
+        {'family': 'tlc', 'knobs': {}, 'quick': 320, 'thorough': 3200, 'first': 500000},
         {'family': 'core', 'knobs': {'p_cancel': 0.35, 'kinds': ['rr', 'stream', 'stream', 'channel', 'channel']}, 'quick': 400,
          'thorough': 6000},
     ],
@@ -60,6 +64,7 @@ FAMILIES = {
         {'family': 'adapters', 'knobs': {'version': 'rx'}, 'quick': 300, 'thorough': 5000, 'first': 100000},
     ],
     'C10': [
+        {'family': 'tlc', 'knobs': {}, 'quick': 320, 'thorough': 3200, 'first': 500000},
         {'family': 'core', 'knobs': {'p_cancel': 0.15, 'p_error': 0.15}, 'quick': 400, 'thorough': 6000},
     ],
 }
